@@ -265,6 +265,58 @@ func c09HandshakeFacts(repo string) (waitsForCtx bool) {
 	return direct == 0 && selectsCtx
 }
 
+// Registry of accepted connections (pkg/connections, used by the stream and DTLS servers at the end of Serve: the only thing
+// that unblocks the readers of the accepted connections after Stop).  registryCloseVisitsAll: Connections.Close calls Close()
+// of the registered connections inside a loop that nothing leaves early - no return, break, goto, continue or panic inside the
+// loop (whatever one connection's Close() reports, the next one is still closed).
+func c09RegistryFacts(repo string) (visitsAll bool) {
+	fset, f := parseFile(repo, "pkg/connections/connections.go")
+	fd := funcDecl(f, "Connections", "Close")
+	loops, closing := 0, 0
+	visitsAll = true
+	ast.Inspect(fd.Body, func(n ast.Node) bool {
+		var body *ast.BlockStmt
+		switch l := n.(type) {
+		case *ast.RangeStmt:
+			body = l.Body
+		case *ast.ForStmt:
+			body = l.Body
+		default:
+			return true
+		}
+		loops++
+		closes, leaves := false, false
+		ast.Inspect(body, func(m ast.Node) bool {
+			switch x := m.(type) {
+			case *ast.CallExpr:
+				t := c09ExprText(fset, x.Fun)
+				if strings.HasSuffix(t, ".Close") {
+					closes = true
+				}
+				if t == "panic" {
+					leaves = true
+				}
+			case *ast.ReturnStmt, *ast.BranchStmt:
+				leaves = true
+			case *ast.FuncLit:
+				return false
+			}
+			return true
+		})
+		if closes {
+			closing++
+			if leaves {
+				visitsAll = false
+			}
+		}
+		return false
+	})
+	if closing == 0 {
+		fail("pkg/connections/connections.go: Connections.Close: no loop that closes the registered connections")
+	}
+	return visitsAll
+}
+
 func init() {
 	register("BlockingWaits.lean", func(g *gen, repo string) {
 		ws := c09CollectWaits(repo)
@@ -289,6 +341,8 @@ func init() {
 		fmt.Fprintf(&b, "def writeArmsDeadline : Bool := %v\n", ad)
 		b.WriteString("/-- net/conn.go: handshake() calls the transport's HandshakeContext only from a goroutine and waits in a select that listens to its ctx -/\n")
 		fmt.Fprintf(&b, "def handshakeWaitsForCtx : Bool := %v\n", c09HandshakeFacts(repo))
+		b.WriteString("/-- pkg/connections: Connections.Close closes the registered connections in a loop that nothing leaves early (no return / break / goto / continue / panic inside it) -/\n")
+		fmt.Fprintf(&b, "def registryCloseVisitsAll : Bool := %v\n", c09RegistryFacts(repo))
 		b.WriteString("\nend CoapVerif.Generated.BlockingWaits\n")
 		g.write("BlockingWaits.lean", b.String())
 	})
